@@ -142,6 +142,23 @@ def lower_unit(u, outdir):
     txt += '\n#include "%s"\n' % os.path.join(CONTRACTS, 'prelude.h')
     txt += protos
     txt += '\n#define SPEC_CONTRACTS\n#include "%s"\n#undef SPEC_CONTRACTS\n' % spec
+    # recorders the spec was written against (snapshot taken at rebaseline time): a wrapper that stops calling its
+    # C++ function altogether would otherwise make the harness fail to compile (an infrastructure error); declaring
+    # the ghosts of the vanished recorder keeps the harness compiling, and its `calls == 1` obligation then fails.
+    missing = []
+    try:
+        with open(os.path.join(os.path.dirname(CONTRACTS), 'baseline', 'recorders.json')) as f:
+            snap = json.load(f).get(u['unit'], {})
+    except Exception:
+        snap = {}
+    have = getattr(L, 'recorder_info', {})
+    for rn, ghosts in sorted(snap.items()):
+        if rn not in have:
+            missing.append(rn)
+            txt += '\n/* recorder %s: present when the spec was baselined, no longer called anywhere in the lowered code */\n' % rn
+            txt += '\n'.join(g + ';' for g in ghosts if not g.startswith('_Bool nondet_bool')) + '\n'
+            L.log.append('recording stub %s is no longer called by any lowered function: its ghosts are declared so the spec still compiles (call count stays 0)' % rn)
+    meta['missing_recorders'] = missing
     txt += fns
     txt += '\n#define SPEC_HARNESS\n#include "%s"\n#undef SPEC_HARNESS\n' % spec
     txt += '#ifdef HARNESS\nint main(void) { HARNESS(); return 0; }\n#endif\n'
